@@ -931,3 +931,24 @@ pub fn c01_pop_frame_blocked_keeps_order() {
     std::mem::forget(out);
     forget(w);
 }
+
+/// C17 isolation in the unlocked flush window: clearing the queue of stream A (reset)
+/// while a DATA frame of a *different* stream B is being written must not mark B's frame
+/// as dropped - B's unwritten tail has to be re-queued by reclaim.
+pub fn c17_isolate_clear_queue_other_stream_in_flight() {
+    let mut w = world(3);
+    // a second record, B, whose frame is in flight
+    let kb = store_h::insert_slab_only(&mut w.store, Stream::new(StreamId::from(3), 0, 0));
+    let _pre = sym_pre(&mut w, None);
+    set_in_flight(&mut w.prio, Some(kb));
+    {
+        let mut p = w.store.resolve(w.key);
+        w.prio.clear_queue(&mut w.buffer, &mut p);
+    }
+    assert!(w.prio.in_flight_data_frame == InFlightData::DataFrame(kb),
+        "C17: resetting one stream marked another stream's in-flight DATA frame as dropped (its unwritten tail is lost)");
+    let p = w.store.resolve(w.key);
+    assert!(p.buffered_send_data == 0 && p.requested_send_capacity == 0);
+    kani::cover!(true, "end");
+    forget(w);
+}
